@@ -2,7 +2,7 @@
 C23 - RUN, CLEAR and NEW reset everything; CHAIN keeps exactly the COMMON variables.
 
 E2-style exhaustive history enumeration (no sampling), every case on a FRESH session:
-  reset   every subset of <=3 (quick) / <=4 (thorough) state builders out of 19 (scalars of 4 types,
+  reset   every subset of <=3 (quick) / <=4 (thorough) state builders out of 20 (scalars of 4 types,
           literal / heap / 255-char strings, string churn, 1-D int, string and 2-D arrays, DEF FN, DEFtype,
           OPTION BASE 1, open FOR / WHILE / GOSUB frames, ON ERROR GOTO, stopped inside the error
           handler, RANDOMIZE+RND) built by a program that STOPs inside its frames, followed by each of 13
@@ -23,7 +23,7 @@ PROPERTY = 'C23'
 ENGINE = 'E2 bfs'
 LEVEL = 'model_checking'
 LEVEL_TEXT = (
-    'All combinations of up to 4 (quick: 3) state builders out of 19 - each touching one component named '
+    'All combinations of up to 4 (quick: 3) state builders out of 20 - each touching one component named '
     'in the property (variables of every type, arrays, DEF FN, DEFtype, OPTION BASE, FOR/WHILE/GOSUB '
     'frames, error trap, active error handler, random sequence) - are built on a fresh interpreter, '
     'followed by each of 13 forms of RUN / CLEAR / NEW / line edit, and every component is then observed '
@@ -75,11 +75,13 @@ VAROPS = {
     'sH': 'B$="he"+"ap"',
     'sL': 'L$=STRING$(255,"z")',
     'gc': 'B$=B$+"1":B$=B$+"2":L$=""',
+    # a run-time empty string shares its address with the string stored just before it
+    'sE': 'B$="he"+"ap":L$=LEFT$(B$,0)',
     'aC': 'DIM C%(3):C%(1)=11:C%(3)=33',
     'aD': 'DIM D$(2):D$(1)="p":D$(2)="q"+"r"',
     'aE': 'DIM E!(1,2):E!(1,2)=2.5:E!(1,1)=7',
 }
-VARORDER = ['sA', 'sI', 'sD', 'sB', 'sH', 'sL', 'gc', 'aC', 'aD', 'aE']
+VARORDER = ['sA', 'sI', 'sD', 'sB', 'sH', 'sL', 'gc', 'sE', 'aC', 'aD', 'aE']
 
 
 def _apply_varop(m, op, base):
@@ -98,6 +100,9 @@ def _apply_varop(m, op, base):
         sc['L$'] = b'z' * 255
     elif op == 'gc':
         sc['B$'] = sc.get('B$', b'') + b'12'
+        sc['L$'] = b''
+    elif op == 'sE':
+        sc['B$'] = b'heap'
         sc['L$'] = b''
     elif op == 'aC':
         v = [0, 11, 0, 33]
@@ -118,7 +123,7 @@ FRESH_VALUE = {'!': 0.0, '%': 0, '#': 0.0, '$': b''}
 
 # other builders (reset leg)
 OTHER = ['fn', 'dt', 'ob', 'fF', 'fW', 'fG', 'oe', 'eh', 'rn']
-BUILDERS = VARORDER + OTHER      # 19
+BUILDERS = VARORDER + OTHER      # 20
 
 
 def _program(builders, stop_stmt, common=None, order=None):
@@ -470,7 +475,7 @@ def _common_lists():
     return out
 
 
-COMMONS = _common_lists()      # 19
+COMMONS = _common_lists()      # 20
 # for the longest histories (thorough): none, each single name, all four, all eight
 REDUCED_COMMONS = [i for i, c in enumerate(COMMONS) if len(c) in (0, 1, 8) or c == COMMON_UNIVERSE]
 
